@@ -189,6 +189,18 @@ def verify_function(table, reg, qual, cls, props, timeout_ms=None):
             else:
                 raise Unsupported("loop control escaping function")
         res["paths"] = {"normal": n_normal, "raise": n_raise}
+        # determinism effect: a function declared deterministic must not (transitively through
+        # contracts) use a primitive whose result varies between interpreter processes
+        if c.effects == "deterministic":
+            bad = sorted(eng.effects_used)
+            ob = Obligation("effects.deterministic", "effects")
+            ob.unit, ob.props, ob.backend, ob.paths = unit, list(props), "effect-check", 1
+            if bad:
+                ob.status = "refuted"
+                ob.model = {"process-varying primitives used": "; ".join(bad)}
+                ob.detail = {"goal": "no process-varying primitive (hash(str), id, set iteration, time, default repr) on any path",
+                             "notes": bad}
+            eng.obls.append(ob)
         # covers: every declared raise condition is reachable under the precondition
         covers = []
         for exc, cond in list(c.raises) + list(c.may_raise):
